@@ -44,7 +44,10 @@ Section GraphHist.
 Context {node : Type} {ED : EqDec node}.
 Local Notation graph := (Topo.graph node).
 
-Inductive gop := GDep (a b : node) | GDeps (a : node) (l : list node) | GSort (req : list node).
+(* GNote: add_type_definition / add_resolved_type - annotations kept in other maps of the struct
+   (definition path; StructInfo with its is_enum flag and fields); the dependency map is untouched *)
+Inductive gop := GDep (a b : node) | GDeps (a : node) (l : list node) | GSort (req : list node)
+               | GNote (a : node) (is_enum : bool).
 
 Fixpoint gset (a : node) (f : list node -> list node) (g : graph) : graph :=
   match g with
@@ -57,6 +60,7 @@ Definition gapply (g : graph) (o : gop) : graph :=
   | GDep a b => gset a (ins b) g
   | GDeps a l => gset a (fun _ => nodup eq_dec l) g
   | GSort _ => g
+  | GNote _ _ => g
   end.
 
 (* [ord]: the order in which a set is traversed (hash order, or sorted name order) *)
